@@ -145,4 +145,59 @@ theorem C16_cli_pipeline_total (desc : Loader.Desc Pipeline.Str) (rawIsa : List 
   exact C16_cli_pipeline desc rawIsa lines st tbl hrun (structOK_nodup_names hs)
     (C03_routes_struct st.proc st.prog tbl false hs hD)
 
+/-! ## Non-vacuity
+
+`N := Nat`: the scrambled DAG description of `Loader.C12Examples.exDesc` is accepted, the loaded processor satisfies
+`structOK` (evaluated, and by the theorem).
+
+`N := List Char`: a fork/join processor `fetch → {alu, lsu} → wb` described as text-level data, an ISA in mixed
+case, a three-line program with a self-dependent last instruction: the composed pipeline completes, and the command
+line prints the table shown (evaluated by `decide`); `C16_cli_pipeline_total` applies. -/
+namespace C16bExamples
+
+example : (match Loader.load id Loader.C12Examples.exDesc with
+    | .ok p => structOK p
+    | .error _ => false) = true := by decide
+
+example : ∀ p, Loader.load id Loader.C12Examples.exDesc = .ok p → structOK p = true :=
+  fun _ h => loaded_structOK Loader.StrictTotal.nat id h
+
+def s (x : String) : List Char := x.toList
+
+def desc : Loader.Desc Pipeline.Str :=
+  ⟨[⟨s "fetch", 2, [s "ALU", s "MEM"], true, false, []⟩, ⟨s "alu", 1, [s "ALU"], false, false, []⟩,
+    ⟨s "lsu", 1, [s "MEM"], false, false, [s "MEM"]⟩, ⟨s "wb", 1, [s "ALU", s "MEM"], false, true, []⟩],
+   [[s "fetch", s "alu"], [s "fetch", s "lsu"], [s "alu", s "wb"], [s "lsu", s "wb"]]⟩
+def rawIsa : List (Pipeline.Str × Pipeline.Str) := [(s "ADD", s "alu"), (s "LW", s "mem")]
+def lines : List Pipeline.Str := [s "ADD R1, R2, R3", s "LW R4, R1", s "add r1, R1, r4"]
+
+def isDoneRun : Except Pipeline.Failure (Pipeline.Stages × Outcome Pipeline.Str) → Bool
+  | .ok (_, .done _) => true
+  | _ => false
+
+example : isDoneRun (Pipeline.run desc rawIsa lines) = true := by decide
+
+example : Pipeline.cliTable desc rawIsa lines = some
+    [["", "1", "2", "3", "4", "5", "6", "7", "8", "9"],
+     ["I1", "U:fetch", "U:alu", "U:wb"],
+     ["I2", "D:fetch", "D:fetch", "D:fetch", "U:fetch", "U:lsu", "U:wb"],
+     ["I3", "", "D:fetch", "D:fetch", "D:fetch", "D:fetch", "D:fetch", "U:fetch", "U:alu", "U:wb"]] := by decide
+
+/-- the hypothesis of `C16_cli_pipeline_total` is satisfiable and the theorem applies -/
+example : ∃ st tbl t, Pipeline.run desc rawIsa lines = .ok (st, .done tbl) ∧
+    Pipeline.cliTable desc rawIsa lines = some t ∧ C16_Holds String.ofList tbl st.prog.length t := by
+  have hd : isDoneRun (Pipeline.run desc rawIsa lines) = true := by decide
+  cases h : Pipeline.run desc rawIsa lines with
+  | error e => rw [h] at hd; cases hd
+  | ok r =>
+    obtain ⟨st, o⟩ := r
+    cases o with
+    | done tbl =>
+      obtain ⟨t, h1, h2⟩ := C16_cli_pipeline_total desc rawIsa lines st tbl h
+      exact ⟨st, tbl, t, rfl, h1, h2⟩
+    | stall tbl => rw [h] at hd; cases hd
+    | fault f => rw [h] at hd; cases hd
+
+end C16bExamples
+
 end ProcSim
